@@ -687,7 +687,12 @@ pub fn main() {
 pub fn decode(data: &[u8]) -> Case {
     let lens = harness::lens::MID;
     let g = |i: usize| data.get(i).copied().unwrap_or(0);
-    let n = lens[g(0) as usize % lens.len()];
+    // the libFuzzer process runs cases on an 8 MiB main-thread stack (with ASan red zones): keep arrays small there
+    let lens: Vec<usize> = lens.iter().copied().filter(|n| *n <= 1024).collect();
+    let mut n = lens[g(0) as usize % lens.len()];
+    if g(1) % 6 == 4 && n > 256 {
+        n = 256;
+    }
     let kind = match g(1) % 6 {
         0..=2 => Kind::Tracked,
         3 => Kind::U32,
